@@ -686,17 +686,12 @@ func Check(prop *Property, tier string, seed uint64, workers int, verifDir strin
 			fmt.Printf("violation signature: %s\n%s\n", o.Violation.Signature, firstLines(o.Violation.Detail, 20))
 		}
 	}
-	var knownKeys []string
-	for k := range known {
-		knownKeys = append(knownKeys, k)
-	}
-	sort.Strings(knownKeys)
-	for _, k := range knownKeys {
-		what := k
-		if f := findings.Known(prop.ID, k); f != nil {
-			what = k + " — " + f.What
+	// every listed (unrepaired) finding of this property is reported on every
+	// run, with how often this run reproduced it
+	for _, f := range findings.Findings {
+		if f.Status == "known" && f.Property == prop.ID {
+			fmt.Printf("KNOWN-FINDING: property=%s %s — %s (reproduced in %d runs of this check)\n", prop.ID, f.Signature, f.What, known[f.Signature])
 		}
-		fmt.Printf("KNOWN-FINDING: property=%s %s (hit in %d runs)\n", prop.ID, what, known[k])
 	}
 	for _, l := range violationLines {
 		fmt.Println(l)
